@@ -51,6 +51,8 @@ pub fn base_char_def(overrides: &[(&str, (u8, u8, u8))]) -> String {
         ("KATAKANA", (1, 1, 2)),
         ("KANJINUMERIC", (0, 1, 0)),
         ("USER1", (1, 0, 3)),
+        // the last of the category bits
+        ("USER4", (1, 1, 2)),
     ];
     for (n, v) in overrides {
         for c in cats.iter_mut() {
@@ -66,7 +68,7 @@ pub fn base_char_def(overrides: &[(&str, (u8, u8, u8))]) -> String {
     s.push_str(
         "0x0020 SPACE\n0x0030..0x0039 NUMERIC\n0x0061..0x007A ALPHA\n0x3041..0x309F HIRAGANA\n0x4E00..0x9FFF KANJI\n0x4E00 KANJINUMERIC KANJI\n\
          0x30A1..0x30FF KATAKANA\n0x30A1 NOOOVBOW\n0x30FC NOOOVBOW\n0x0300..0x036F ALL NOOOVBOW\n0x200D ALL NOOOVBOW2\n\
-         0x1F3FB..0x1F3FE ALL NOOOVBOW\n0x0062 USER1\n0x6F22 USER1\n0x3042 USER1 KATAKANA\n",
+         0x1F3FB..0x1F3FE ALL NOOOVBOW\n0x0062 USER1\n0x6F22 USER1\n0x3042 USER1 KATAKANA\n0x4E00 USER4\n",
     );
     s
 }
@@ -77,7 +79,7 @@ pub fn base_char_def(overrides: &[(&str, (u8, u8, u8))]) -> String {
 pub fn base_unk_def() -> String {
     "# unknown word definitions\n\nDEFAULT,5,5,3857,補助記号,一般,*,*,*,*\nALPHA,1,1,11633,名詞,普通名詞,一般,*,*,*\nSPACE,4,4,6056,空白,*,*,*,*,*\nKANJI,1,1,14657,名詞,普通名詞,一般,*,*,*\n\
      NUMERIC,3,3,12450,名詞,数詞,*,*,*,*\nKANJI,2,2,18181,名詞,固有名詞,地名,一般,*,*\n\
-     KATAKANA,1,1,10980,名詞,普通名詞,一般,*,*,*\nALPHA,2,2,13620,名詞,固有名詞,地名,一般,*,*\nUSER1,6,6,9000,名詞,普通名詞,未知,*,*,*\n"
+     KATAKANA,1,1,10980,名詞,普通名詞,一般,*,*,*\nALPHA,2,2,13620,名詞,固有名詞,地名,一般,*,*\nUSER1,6,6,9000,名詞,普通名詞,未知,*,*,*\nUSER4,7,7,8000,名詞,普通名詞,未知四,*,*,*\n"
         .to_string()
 }
 
@@ -95,6 +97,19 @@ pub fn oov_rows() -> Vec<Row> {
 
 pub fn make_oov_world(name: &str, overrides: &[(&str, (u8, u8, u8))], providers: Vec<Provider>, with_input_plugin: bool) -> OovWorld {
     make_oov_world_layers(name, overrides, providers, with_input_plugin, false)
+}
+
+thread_local! {
+    static EXTRA_ROWS: std::cell::RefCell<Vec<Row>> = std::cell::RefCell::new(Vec::new());
+}
+
+/// a world whose system lexicon has some more words (dictionary words of 63 / 64 / 65 characters:
+/// the sizes around which the "a word of this length exists already" set stops being exact)
+pub fn make_oov_world_extra(name: &str, providers: Vec<Provider>, extra: Vec<Row>) -> OovWorld {
+    EXTRA_ROWS.with(|e| *e.borrow_mut() = extra);
+    let w = make_oov_world_layers(name, &[], providers, false, false);
+    EXTRA_ROWS.with(|e| e.borrow_mut().clear());
+    w
 }
 
 /// `layered`: some of the words live in two user dictionaries instead of the system dictionary
@@ -121,7 +136,13 @@ pub fn make_oov_world_layers(name: &str, overrides: &[(&str, (u8, u8, u8))], pro
         unk_def: unk_def.clone(),
         rewrite_def: rewrite_def.clone(),
         matrix: Matrix::distinct(10, 10),
-        system: if layered { oov_rows().into_iter().filter(|r| !["ab", "アア", "1", "漢"].contains(&r.surface.as_str())).collect() } else { oov_rows() },
+        system: if layered {
+            oov_rows().into_iter().filter(|r| !["ab", "アア", "1", "漢"].contains(&r.surface.as_str())).collect()
+        } else {
+            let mut v = oov_rows();
+            EXTRA_ROWS.with(|e| v.extend(e.borrow().iter().cloned()));
+            v
+        },
         users: if layered {
             vec![vec![Row::new("ab", 1, 2, 3500, P_NOUN), Row::new("1", 9, 9, 2478, P_NUM)], vec![Row::new("アア", 7, 7, 5000, P_NOUN), Row::new("漢", 7, 7, 4000, P_NOUN)]]
         } else {
@@ -500,7 +521,7 @@ pub fn main(tier: Tier, replay: Option<String>) -> i32 {
     }
     // runs longer than 64 characters (created-words bitset saturates)
     {
-        let w = make_oov_world("W-oov-long-runs", &[], vec![Provider::Regex { left: 2, right: 2, cost: 7000, pos: P_REGEX, max_len: 100, relaxed: true }, Provider::MeCab, simple.clone()], false);
+        let w = make_oov_world_extra("W-oov-long-runs", vec![Provider::Regex { left: 2, right: 2, cost: 7000, pos: P_REGEX, max_len: 100, relaxed: true }, Provider::MeCab, simple.clone()], vec![Row::new(&"z".repeat(63), 1, 1, 3000, P_NOUN), Row::new(&"z".repeat(64), 1, 1, 3000, P_NOUN), Row::new(&"z".repeat(65), 1, 1, 3000, P_NOUN), Row::new(&"ア".repeat(64), 1, 1, 3000, P_NOUN)]);
         let mut texts = Vec::new();
         for n in [62usize, 63, 64, 65, 66, 100, 130] {
             for c in ["z", "ア", "漢", "1"] {
